@@ -28,6 +28,9 @@ pub fn install_panic_hook() {
     }));
 }
 
+/// the panic hook is process-wide; worker threads need nothing more (kept as an explicit marker at thread start)
+pub fn install_panic_hook_thread() {}
+
 pub fn start_watchdog(limit_s: u64) {
     let t0 = std::time::Instant::now();
     T0.with(|t| *t.borrow_mut() = Some(t0));
@@ -151,6 +154,28 @@ impl Out {
         let _ = writeln!(self.w, "{}", line);
         self.count += 1;
     }
+    /// Write a protocol line for an answer obtained outside `case` (a multi-threaded stage): every shard runs such a
+    /// stage itself, so the line is not subject to the shard filter; the operation filter applies.
+    pub fn emit(&mut self, op: &str, args: &[&[u8]], res: String) {
+        if let Some(ops) = &self.ops {
+            if !ops.iter().any(|o| o == op) {
+                return;
+            }
+        }
+        if self.only.is_some() {
+            return;
+        }
+        let mut line = String::with_capacity(64);
+        line.push_str(op);
+        for a in args {
+            line.push('\t');
+            line.push_str(&hex(a));
+        }
+        line.push_str("\t=\t");
+        line.push_str(&esc(&res));
+        let _ = writeln!(self.w, "{}", line);
+        self.count += 1;
+    }
     pub fn comment(&mut self, s: &str) {
         let _ = writeln!(self.w, "#{}", s);
     }
@@ -193,4 +218,81 @@ pub fn gen_call<T, F: FnOnce() -> T>(f: F) -> Option<T> {
     let r = catch_unwind(AssertUnwindSafe(f));
     CALL_START.store(0, Ordering::Relaxed);
     r.ok()
+}
+
+/// Schedules: `f` applied to every input from `threads` threads at once, `rounds` times, must answer what it answers
+/// alone (`exp`, computed beforehand on this thread).  Returns (index, deviating answer).  Each round is one guarded
+/// call (the watchdog sees a deadlock).
+pub fn par_consistent(inputs: &std::sync::Arc<Vec<Vec<u8>>>, exp: &std::sync::Arc<Vec<String>>, f: fn(&[u8]) -> String, threads: usize, rounds: usize)
+    -> Vec<(usize, String)> {
+    let mut all = vec![];
+    for r in 0..rounds {
+        let got = gen_call(|| {
+            let mut hs = vec![];
+            for t in 0..threads {
+                let (inputs, exp) = (inputs.clone(), exp.clone());
+                hs.push(std::thread::spawn(move || {
+                    let n = inputs.len();
+                    let mut bad = vec![];
+                    if n == 0 { return bad; }
+                    let start = (t * n / threads + r * 7919) % n;
+                    for k in 0..n {
+                        let i = if t % 2 == 0 { (start + k) % n } else { (start + n - k) % n };
+                        let v = inputs[i].clone();
+                        let got = catch_unwind(move || f(&v)).unwrap_or_else(|_| "PANIC (concurrent)".into());
+                        if got != exp[i] && bad.len() < 4 { bad.push((i, got)); }
+                    }
+                    bad
+                }));
+            }
+            let mut v = vec![];
+            for h in hs { if let Ok(mut b) = h.join() { v.append(&mut b); } }
+            v
+        }).unwrap_or_default();
+        all.extend(got);
+        if all.len() > 16 { break; }
+    }
+    all
+}
+/// the replay form of a `par_*` parsing case: the one input, repeated while other threads parse `others`
+pub fn par_one_of(v: &[u8], others: Vec<Vec<u8>>, f: fn(&[u8]) -> String) -> String {
+    use std::sync::atomic::AtomicBool;
+    use std::sync::Arc;
+    let others = Arc::new(others);
+    let stop = Arc::new(AtomicBool::new(false));
+    let mut hs = vec![];
+    for t in 0..7usize {
+        let (others, stop) = (others.clone(), stop.clone());
+        hs.push(std::thread::spawn(move || {
+            let n = others.len().max(1);
+            let mut i = t * n / 7;
+            while !stop.load(Ordering::Relaxed) {
+                if let Some(o) = others.get(i % n) { let o = o.clone(); let _ = catch_unwind(move || f(&o)); }
+                i += 1;
+            }
+        }));
+    }
+    let first = f(v);
+    let mut res = first.clone();
+    for _ in 0..200_000 {
+        let g = f(v);
+        if g != first { res = g; break; }
+    }
+    stop.store(true, Ordering::Relaxed);
+    for h in hs { let _ = h.join(); }
+    res
+}
+/// run a `par_consistent` stage over `inputs` and write its lines (deviations, plus a few samples that show it ran)
+pub fn par_stage(out: &mut Out, op: &str, inputs: Vec<Vec<u8>>, f: fn(&[u8]) -> String, rounds: usize) {
+    let inputs = std::sync::Arc::new(inputs);
+    let exp: Vec<String> = inputs.iter().map(|v| gen_call(|| f(v)).unwrap_or_else(|| "PANIC".into())).collect();
+    let exp = std::sync::Arc::new(exp);
+    let bad = par_consistent(&inputs, &exp, f, 8, rounds);
+    let mut seen = std::collections::BTreeSet::new();
+    for (i, got) in bad.into_iter() {
+        if seen.insert(i) { out.emit(op, &[&inputs[i]], got); }
+    }
+    for i in (0..inputs.len()).step_by((inputs.len() / 8).max(1)) {
+        out.emit(op, &[&inputs[i]], exp[i].clone());
+    }
 }
